@@ -1,5 +1,6 @@
 import A5.Lemmas.Total3
 import A5.Lemmas.HexLemmas
+import A5.Lemmas.PentagonConvex2
 /-! # C14 — the integer API is total: no panic, no overflow, no non-termination; errors or valid results
 
 Model: `A5/Model/Codec.lean`, `Hier.lean`, `Compact.lean`, `Hex.lean`.  `Outcome.panic k` marks every point
@@ -299,5 +300,23 @@ example : compact [0xf200000000000000, 0xf600000000000000, 0xfa00000000000000, 0
 /-- the hypothesis `Layout c` of `groupAt_ok` is therefore necessary -/
 example : (groupAt 0xf200000000000000 [0xf600000000000000, 0xfa00000000000000, 0xfe00000000000000,
     1, 2, 3, 4, 5, 6, 7, 8]).isPanic = true := by decide
+
+/-! ## the one float-dependent panic of the lookup: `contains_point` on a clockwise pentagon -/
+
+/-- `contains_point` panics exactly when its pentagon fails the winding test (for ALL float values). -/
+theorem contains_panics_iff_not_ccw (vs : Poly) (p : V2) :
+    polyContains vs p = .panic .notCCW ↔ windingCorrect vs = false :=
+  PG.polyContains_panic_iff vs p
+
+open A5.PG A5.HilbertLocate in
+/-- ... and in exact arithmetic on the runtime constants that never happens: the pentagon drawn for ANY anchor, scaled by
+any `s > 0` and transformed by any matrix of positive determinant, passes the winding test strictly (positive trapezoid
+sum) and `PentagonShape::new` leaves it as it is.  What separates this from the `f64` run is rounding only (relative
+2^-52·|offset| against an area of 0.6·s²) - not proved. -/
+theorem exact_pentagon_passes_winding (a : Anchor) (hF : IsFlip a.flips) (s : Rat) (hs : 0 < s)
+    (m : Rat × Rat × Rat × Rat) (hd : 0 < detG m) :
+    WindingCorrectG 0 (placedQ a s m) ∧ 0 < areaG 0 (placedQ a s m) ∧ polyNewG 0 (placedQ a s m) = placedQ a s m := by
+  obtain ⟨_, h2, h3, _⟩ := placedQ_facts a hF s hs m hd
+  exact ⟨Rat.le_of_lt h2, h2, h3⟩
 
 end A5.C14
